@@ -2,7 +2,8 @@
 //! an offset that varies with the instant (with `FixedOffset`/`Utc` alone, code that forgets to
 //! re-resolve the offset in the zone is indistinguishable from correct code).
 
-use chrono::{FixedOffset, MappedLocalTime, NaiveTime, TimeZone};
+use chrono::{FixedOffset, MappedLocalTime, NaiveDate, NaiveDateTime, NaiveTime, Offset, TimeZone};
+use std::fmt;
 
 /// A zone whose offset changes (through the public `TimeZone` trait): +01:00 before
 /// 2021-03-28T01:00Z, +02:00 until 2021-10-31T01:00Z, +01:00 afterwards. Stepping and field
@@ -51,3 +52,40 @@ impl TimeZone for StepTz {
     }
 }
 
+
+/// A constant-offset zone whose offset type is *not* `FixedOffset` and displays a zone name: what
+/// `%Z` prints is the `Display` of the zone's own offset value, which only a user-defined zone (or
+/// `Utc`) makes different from the numeric offset.
+#[derive(Clone, Copy, Debug, PartialEq, Eq)]
+pub struct NamedOff(pub i32);
+pub const ZONE_NAME: &str = "NPT";
+impl Offset for NamedOff {
+    fn fix(&self) -> FixedOffset {
+        FixedOffset::east_opt(self.0).expect("NamedOff in range")
+    }
+}
+impl fmt::Display for NamedOff {
+    fn fmt(&self, f: &mut fmt::Formatter) -> fmt::Result {
+        f.write_str(ZONE_NAME)
+    }
+}
+#[derive(Clone, Copy, Debug)]
+pub struct NamedTz(pub i32);
+impl TimeZone for NamedTz {
+    type Offset = NamedOff;
+    fn from_offset(o: &NamedOff) -> Self {
+        NamedTz(o.0)
+    }
+    fn offset_from_local_date(&self, _: &NaiveDate) -> MappedLocalTime<NamedOff> {
+        MappedLocalTime::Single(NamedOff(self.0))
+    }
+    fn offset_from_local_datetime(&self, _: &NaiveDateTime) -> MappedLocalTime<NamedOff> {
+        MappedLocalTime::Single(NamedOff(self.0))
+    }
+    fn offset_from_utc_date(&self, _: &NaiveDate) -> NamedOff {
+        NamedOff(self.0)
+    }
+    fn offset_from_utc_datetime(&self, _: &NaiveDateTime) -> NamedOff {
+        NamedOff(self.0)
+    }
+}
